@@ -271,6 +271,7 @@ type copier struct {
 	mode                           *int
 	modeSet                        *mode.Set
 	inodes                         map[uint64]string
+	linkSources                    map[string]os.FileInfo
 	xattrErrorHandler              XAttrErrorHandler
 	includePatternMatcher          *patternmatcher.PatternMatcher
 	excludePatternMatcher          *patternmatcher.PatternMatcher
@@ -410,6 +411,16 @@ func (c *copier) copy(ctx context.Context, src, srcComponents, target string, ov
 		if err != nil {
 			return errors.Wrap(err, "failed to get hardlink")
 		}
+		if link != "" && !c.isLinkSource(link) {
+			// several wildcard matches can land on one destination path: the
+			// recorded link source has been replaced or removed by a later match
+			// (possibly by a symlink, which must not be linked and chmod'ed
+			// through). This name becomes the link source instead.
+			if inode, ok := getLinkInfo(fi); ok {
+				c.inodes[inode] = target
+			}
+			link = ""
+		}
 		if link != "" {
 			if err := os.Link(link, target); err != nil {
 				return errors.Wrap(err, "failed to create hard link")
@@ -446,12 +457,34 @@ func (c *copier) copy(ctx context.Context, src, srcComponents, target string, ov
 			return errors.Wrap(err, "failed to restore file timestamp")
 		}
 	}
+	if c.inodes != nil && (fi.Mode()&os.ModeType) == 0 {
+		if inode, ok := getLinkInfo(fi); ok && c.inodes[inode] == target {
+			// remember what was written as the link source of this inode
+			if tfi, err := os.Lstat(target); err == nil {
+				if c.linkSources == nil {
+					c.linkSources = map[string]os.FileInfo{}
+				}
+				c.linkSources[target] = tfi
+			}
+		}
+	}
 	if notify {
 		if err := c.notifyChange(target, fi); err != nil {
 			return err
 		}
 	}
 	return nil
+}
+
+// isLinkSource reports whether path still is the file that was written there as
+// a hard-link source.
+func (c *copier) isLinkSource(path string) bool {
+	recorded, ok := c.linkSources[path]
+	if !ok {
+		return false
+	}
+	fi, err := os.Lstat(path)
+	return err == nil && os.SameFile(recorded, fi)
 }
 
 func (c *copier) notifyChange(target string, fi os.FileInfo) error {
